@@ -181,9 +181,16 @@ static void process_get_attr(struct xcm_socket *socket,
 			     struct ctl_proto_get_attr_req *req,
 			     struct ctl_proto_msg *response)
 {
-    LOG_CLIENT_GET_ATTR(socket, req->attr_name);
-
     struct ctl_proto_get_attr_cfm *cfm = &response->get_attr_cfm;
+
+    if (strnlen(req->attr_name, sizeof(req->attr_name)) ==
+	sizeof(req->attr_name)) {
+	response->type = ctl_proto_type_get_attr_rej;
+	response->get_attr_rej.rej_errno = EINVAL;
+	return;
+    }
+
+    LOG_CLIENT_GET_ATTR(socket, req->attr_name);
 
     UT_SAVE_ERRNO;
     int rc = xcm_attr_get(socket, req->attr_name, &cfm->attr.value_type,
